@@ -20,10 +20,11 @@ RUNS = [([0.125, 'sec'], [2.0, 'sec']), ([0.5, 'sec'], [3000.0, 'ms'])]
 
 
 def bounds(tier):
-    return {'models': MODELS if tier != 'quick' else MODELS[:4], 'runs': RUNS, 'operators': list(OPS)}
+    return {'models': MODELS if tier != 'quick' else MODELS[:6], 'runs': RUNS, 'operators': list(OPS)}
 
 
-MODELS = ['osc', 'locking', 'locking-rpm', 'geared', 'worm']
+MODELS = ['osc', 'locking', 'locking-rpm', 'geared', 'held-off', 'lift-off', 'worm']
+PRELUDE_MODELS = ('held-off', 'lift-off')
 
 
 def model_spec(name):
@@ -43,6 +44,13 @@ def model_spec(name):
                            init={'theta': [0.0, 'deg'], 'w': [0.0, 'rpm']})
         st = menu.stall_at_output(spec)
         spec['load'] = ['switch', 1.9 * st, 0.8]
+    elif name in PRELUDE_MODELS:
+        # self-locking chain under a constant load; the motor is switched off by hand (no control): before the run
+        # ('held-off': everything frozen from the start) or between a lifting run and the judged continuation ('lift-off')
+        spec = menu.assign([('J', 'Wg'), ('W', 'Ww')], motor=menu.MOTOR_CUR, locking=True,
+                           init={'theta': [0.3, 'rad'], 'w': [0.0, 'rad/s']})
+        st = menu.stall_at_output(spec)
+        spec['load'] = ['const', 0.5 * st]
     elif name == 'locking':
         # self-locking chain with a load that rises above stall: speeds are clamped mid-run
         spec = menu.assign([('J', 'Wg'), ('W', 'Ww')], motor=menu.MOTOR_CUR, locking=True,
@@ -57,9 +65,22 @@ def model_spec(name):
     return spec
 
 
+def schedule(mname, ri, stop):
+    """(operations, number of instants recorded before the run that carries the stop condition starts computing)"""
+    dt, T = RUNS[ri]
+    if mname == 'held-off':
+        return [('setpwm', 0), ('run', dt, T, None, stop)], 0
+    if mname == 'lift-off':
+        pre = 4
+        T1 = [dt[0] * pre, dt[1]]
+        T2 = [si.convert(si.si(T[0], 'TimeInterval', T[1]), 'TimeInterval', 'sec', dt[1]) - T1[0], dt[1]]
+        return [('run', dt, T1, None, None), ('setpwm', 0), ('run', dt, T2, None, stop)], pre
+    return [('run', dt, T, None, stop)], 0
+
+
 def shards(tier):
     out = []
-    models = MODELS if tier != 'quick' else MODELS[:4]
+    models = MODELS if tier != 'quick' else MODELS[:6]
     for mname in models:
         spec = model_spec(mname)
         n = len(spec['elements'])
@@ -164,14 +185,15 @@ def check_threshold(acc, mname, ri, sensor, idx, op, thr, base_vals_in_thr_unit,
         import numpy
         thr_arg = [numpy.float64(thr[0]), thr[1]]
         tag = tag + '/numpy-threshold'
-    m, info = sim.run_schedule(spec, [('run', dt, T, None, [sensor, idx, op, thr_arg])])
+    ops, pre = schedule(mname, ri, [sensor, idx, op, thr_arg])
+    m, info = sim.run_schedule(spec, ops)
     acc.executions += 1
     if info['error']:
         acc.violation(f'C16/run-error/{info["error"][0]}', 'run succeeds', case, {'error': info['error']})
         return
     full = len(base_vals_in_thr_unit)
     hold = [OPS[op](v, thr[0]) for v in base_vals_in_thr_unit]
-    kstar = next((k for k in range(1, full) if hold[k]), None)
+    kstar = next((k for k in range(pre + 1, full) if hold[k]), None)
     expected = full if kstar is None else kstar + 1
     got = len(m.pt.time)
     acc.transitions += got
@@ -208,7 +230,7 @@ def run_shard(shard, tier):
     mname, ri, sensor, idx = shard['model'], shard['run'], shard['sensor'], shard['idx']
     spec = model_spec(mname)
     dt, T = RUNS[ri]
-    base, info = sim.run_schedule(spec, [('run', dt, T, None, None)])
+    base, info = sim.run_schedule(spec, schedule(mname, ri, None)[0])
     if info['error']:
         acc.violation('C16/base-run-error', 'unstopped run succeeds', {'kind': 'shard', 'shard': shard}, {'error': info['error']})
         return acc
@@ -232,6 +254,12 @@ def run_shard(shard, tier):
         for op in OPS:
             check_threshold(acc, mname, ri, sensor, idx, op, thr, vals0, base_obs, tag)
             acc.nstates += 1
+            if first:
+                acc.sample({'model': mname, 'dt_T': RUNS[ri], 'sensor': sensor, 'element': idx, 'operator': op,
+                            'threshold': thr, 'placement': tag})
+                first = False
+            if mname in PRELUDE_MODELS:
+                continue
             if tag in ('mid', 'below-min', 'above-max') and op in ('>=', '<'):
                 check_continued(acc, mname, ri, sensor, idx, op, thr, vals0, base_obs, tag, pre=3)
                 acc.nstates += 1
@@ -241,10 +269,6 @@ def run_shard(shard, tier):
             if tag in ('mid', 'equal-sample') and op in ('>=', '<', '=='):
                 check_threshold(acc, mname, ri, sensor, idx, op, thr, vals0, base_obs, tag, numpy_value=True)
                 acc.nstates += 1
-            if first:
-                acc.sample({'model': mname, 'dt_T': RUNS[ri], 'sensor': sensor, 'element': idx, 'operator': op,
-                            'threshold': thr, 'placement': tag})
-                first = False
         if tag == 'mid':
             # the same physical threshold in every other unit of its kind
             for u in si.UNITS[kind]:
@@ -268,7 +292,7 @@ def replay(case):
     if case.get('kind') == 'thr-reuse':
         spec = model_spec(case['model'])
         dt, T = RUNS[case['run']]
-        base, info = sim.run_schedule(spec, [('run', dt, T, None, None)])
+        base, info = sim.run_schedule(spec, schedule(case['model'], case['run'], None)[0])
         kind = sim.SENSOR_KIND[case['sensor']][0]
         series = raw_series(base, case['sensor'], case['idx'])
         u = case['thr'][1]
@@ -278,7 +302,7 @@ def replay(case):
     if case.get('kind') == 'thr-cont':
         spec = model_spec(case['model'])
         dt, T = RUNS[case['run']]
-        base, info = sim.run_schedule(spec, [('run', dt, T, None, None)])
+        base, info = sim.run_schedule(spec, schedule(case['model'], case['run'], None)[0])
         kind = sim.SENSOR_KIND[case['sensor']][0]
         series = raw_series(base, case['sensor'], case['idx'])
         u = case['thr'][1]
@@ -288,7 +312,7 @@ def replay(case):
     if case.get('kind') == 'thr':
         spec = model_spec(case['model'])
         dt, T = RUNS[case['run']]
-        base, info = sim.run_schedule(spec, [('run', dt, T, None, None)])
+        base, info = sim.run_schedule(spec, schedule(case['model'], case['run'], None)[0])
         kind = sim.SENSOR_KIND[case['sensor']][0]
         series = raw_series(base, case['sensor'], case['idx'])
         u = case['thr'][1]
